@@ -326,6 +326,7 @@ def gen_api(exclude=()):
 class BuildResult:
     def __init__(self):
         self.translate_error = None
+        self.translate_errors = {}  # generator name -> message (fail-closed translator)
         self.changed_gen = []
         self.failed = {}        # rel .v path -> error text
         self.log = ""
@@ -349,6 +350,8 @@ def build(clean=False, targets=None):
             br.changed_gen = translate.gen_all()
         except translate.TranslateError as e:
             br.translate_error = str(e)
+            br.translate_errors = dict(getattr(e, "per_gen", {"translate": str(e)}))
+            br.changed_gen = list(getattr(e, "changed", []))
         gen_api()
         srcs = coq_sources()
         with open(os.path.join(COQ, "_CoqProject"), "w") as f:
@@ -578,8 +581,20 @@ def main(argv):
 
     # 1. build + proof obligations
     br = build(clean=(tier == "thorough" and os.environ.get("VERIF_NO_CLEAN") != "1"))
-    if br.translate_error:
-        cases.append({"kind": "proof", "what": "translator (fail-closed): " + br.translate_error})
+    if br.translate_errors:
+        # a generator that failed closed concerns this property when a Gen file it owns is a dependency of the
+        # property's theorems or of the model groups its correspondence uses (unknown ownership: every property)
+        import translate
+        mine = deps_of("Props/%s.v" % prop)
+        for g in (list(getattr(mod, "API_GROUPS", None) or API_OWNER.get(prop, [])) or api_groups(prop, mod)):
+            if os.path.exists(os.path.join(COQ, "Extract", "Api_%s.v" % g)):
+                mine |= deps_of("Extract/Api_%s.v" % g)
+        for g, msg in sorted(br.translate_errors.items()):
+            owned = translate.outputs_of(g)
+            if owned is None or any(("Gen/" + f) in mine for f in owned):
+                cases.append({"kind": "proof", "what": "translator (fail-closed): " + msg})
+            else:
+                notes.append("translator failure in %s does not concern this property: %s" % (g, msg[:200]))
     if br.forbidden:
         cases.append({"kind": "proof", "what": "forbidden construct in Coq sources: %s" % br.forbidden[:5]})
     rel = "Props/%s.v" % prop
